@@ -185,7 +185,9 @@ def _set_child(x, kind, key, value):
     if kind == "i":
         items = list(x)
         if value is _DEL:
-            del items[key]
+            # fixed tuples: drop the LAST item, so that no value moves under another position's type (an IPv6Network shifted under an
+            # Iterable[...] position iterates 2**96 addresses - the run hung there)
+            del items[key if isinstance(x, list) else -1]
         else:
             items[key] = value
         if isinstance(x, list):
